@@ -36,8 +36,8 @@ import c20_worker as W  # noqa: E402   (name pools + specification predicates on
 RULE = ('schedules: each seeded API-built design (gen_designs + renaming through the public name property from pools '
         'of plain names / names needing Verilog sanitising / leading-zero families x1,x01,x001 / two write ports '
         'sharing one enable) is rebuilt in fresh subprocesses under PYTHONHASHSEED x allocation-noise configurations; '
-        'sha256 of output_to_verilog, output_verilog_testbench, print_vcd, print_trace text and of the simulation '
-        'trace compared across configurations; 9 pass pipelines compared by Output traces; 23 export/analysis calls '
+        'sha256 of output_to_verilog, output_verilog_testbench, print_vcd, print_trace text and of the Simulation and '
+        'FastSimulation traces compared across configurations (address-space randomisation off, so a configuration replays); 9 pass pipelines compared by Output traces; 23 export/analysis calls '
         'checked read-only by fingerprint + Output trace. A case = (design, configuration, exporter|pipeline|call); '
         'distinct by (design, observed wirevector_set order, exporter); non-trivial when the design has >= 8 wires '
         'and the configuration produced a set order not seen before for that design. Model tie: generated names '
